@@ -1,9 +1,13 @@
 #!/bin/sh
 # Offline setup after a fresh restore: build the whole Coq development (full .vo build) and
-# the Rust harness (against /repo, hooks on).  Everything lives under /verif.
-set -e
+# every Rust harness binary (against the repository, hooks on).  Everything lives under /verif.
 cd "$(dirname "$0")"
 export CARGO_NET_OFFLINE=true
 mkdir -p work evidence .build
 ( cd coq && rm -f _CoqProject Makefile Makefile.conf && timeout 7000 ./mk.sh -k ) || echo "setup: some Coq files failed to build (the per-property checks will report it)"
-( cd harness && RUSTFLAGS="--cfg clarabel_verif" timeout 3000 cargo build --offline --bins ) || echo "setup: harness build failed (the checks will report it)"
+cd harness
+bins="vharness $(ls src/bin 2>/dev/null | sed -n 's/\.rs$//p')"
+for b in $bins; do
+  RUSTFLAGS="--cfg clarabel_verif" timeout 3000 cargo build --offline --bin "$b" || echo "setup: harness binary $b failed to build (its check will report it)"
+done
+exit 0
